@@ -87,4 +87,70 @@ theorem dumpTable_listOnly (rr : RowReader) (fn : Nat) (info : TableInfo) (attrs
 theorem keepTable_listOnly (o : Options) (info : TableInfo) :
     keepTable { o with listOnly := true } info = keepTable o info := rfl
 
+/-- every table of a DumpDatabaseFromFiles result came out of dumpTable -/
+theorem tables_from_dumpTable (rr : RowReader) (π : MapOrder TableInfo) (cd ad : Bytes) (reader : Option FileReader)
+    (o : Options) (ts : List TableDump) (h : dumpDatabaseFromFiles rr π cd ad reader o = .ok ts) :
+    ∀ t ∈ ts, ∃ fn info attrs, dumpTable rr fn info attrs reader o = .ok t := by
+  unfold dumpDatabaseFromFiles at h
+  cases h1 : parsePGClass rr cd with
+  | error e => simp [h1] at h
+  | ok tables =>
+    cases h2 : parsePGAttribute rr ad o.pgVersion with
+    | error e => simp [h1, h2] at h
+    | ok attrs =>
+      simp only [h1, h2, ok_bind] at h
+      intro t ht
+      obtain ⟨fn, _, hfn⟩ := collectM_ok _ _ _ h t ht
+      unfold dumpOne at hfn
+      cases hg : mapGet tables fn with
+      | none => simp [hg] at hfn
+      | some info =>
+        simp only [hg] at hfn
+        by_cases hk : keepTable o info = true
+        · rw [if_pos hk] at hfn
+          cases hd : dumpTable rr fn info ((mapGet attrs info.oid).getD []) reader o with
+          | error e => simp [hd] at hfn
+          | ok t' =>
+            simp only [hd, ok_bind, pure_eq_ok] at hfn
+            injection hfn with hfn; injection hfn with hfn; subst hfn
+            exact ⟨fn, info, _, hd⟩
+        · rw [if_neg hk] at hfn; simp at hfn
+
+/-- every database of a DumpDataDir result came out of DumpDatabaseFromFiles -/
+theorem dbs_from_files (rr : RowReader) (π : MapOrder TableInfo) (fs : Bytes → Option Bytes) (o : Options)
+    (r : Spec.DumpResult) (h : dumpDataDir rr π fs o = .ok (some r)) :
+    ∀ d ∈ r, ∃ cd ad reader, dumpDatabaseFromFiles rr π cd ad reader o = .ok d.tables := by
+  unfold dumpDataDir at h
+  cases hg : fs pathGlobal1262 with
+  | none => simp [hg] at h
+  | some dbData =>
+    simp only [hg] at h
+    cases hp : parsePGDatabase rr dbData with
+    | error e => simp [hp] at h
+    | ok dbs =>
+      simp only [hp, ok_bind] at h
+      cases hc : collectM (dumpDb rr π fs o) dbs with
+      | error e => simp [hc] at h
+      | ok r' =>
+        simp only [hc, ok_bind, pure_eq_ok] at h
+        injection h with h; injection h with h; subst h
+        intro d hd
+        obtain ⟨db, _, hdb⟩ := collectM_ok _ _ _ hc d hd
+        unfold dumpDb at hdb
+        split at hdb
+        · simp at hdb
+        · split at hdb
+          · simp at hdb
+          · simp only at hdb
+            split at hdb
+            · simp at hdb
+            · cases hf : dumpDatabaseFromFiles rr π ((fs (basePath db.oid 1259)).getD []) ((fs (basePath db.oid 1249)).getD [])
+                  (some fun fn => fs (basePath db.oid fn)) o with
+              | error e => simp [hf] at hdb
+              | ok ts =>
+                simp only [hf, ok_bind, pure_eq_ok] at hdb
+                injection hdb with hdb; injection hdb with hdb; subst hdb
+                exact ⟨_, _, _, hf⟩
+
+
 end PgVerif.Proofs.Cluster
